@@ -177,3 +177,43 @@ theorem fromStart_run (M : Machine σ π Out) (ops : List (Op π)) (s : State σ
     exact ih _ (fromStart_step M s op h (hops op (by simp))) (fun o ho => hops o (by simp [ho]))
 
 end Flute.MultiRecv
+
+namespace Flute.MultiRecv
+variable {σ π Out : Type}
+
+/-- both logs are append-only, and what the driver prints after an operation (`newEvents`, `newOuts`) is exactly
+    what the operation appended -/
+theorem step_logs_append (M : Machine σ π Out) (s : State σ Out) (op : Op π) :
+    ∃ evs os, (step M s op).1.events = s.events ++ evs ∧ (step M s op).1.outs = s.outs ++ os ∧
+      newEvents s (step M s op).1 = evs ∧ newOuts s (step M s op).1 = os := by
+  have key : ∀ (s' : State σ Out) evs os, s'.events = s.events ++ evs → s'.outs = s.outs ++ os →
+      ∃ evs os, s'.events = s.events ++ evs ∧ s'.outs = s.outs ++ os ∧ newEvents s s' = evs ∧ newOuts s s' = os := by
+    intro s' evs os h1 h2
+    exact ⟨evs, os, h1, h2, by simp [newEvents, h1], by simp [newOuts, h2]⟩
+  cases op with
+  | push ep p =>
+    cases p with
+    | none => exact key _ [] [] (by simp [step, push]) (by simp [step, push])
+    | some pkt =>
+      simp only [step, push]
+      split
+      · exact key _ [] [] (by simp) (by simp)
+      · split
+        · split
+          · exact key _ _ _ rfl rfl
+          · exact key _ [] [] (by simp) (by simp)
+        · split
+          · exact key _ [] _ (by simp) rfl
+          · exact key _ _ _ rfl rfl
+  | tick d => exact key _ [] [] (by simp [step]) (by simp [step])
+  | cleanup i => exact key _ _ _ rfl (List.append_assoc _ _ _)
+  | addListen ep tsi => simp only [step]; split <;> exact key _ [] [] (by simp) (by simp)
+  | removeListen ep tsi => exact key _ [] [] (by simp [step]) (by simp [step])
+  | addAll ep => simp only [step]; split <;> exact key _ [] [] (by simp) (by simp)
+  | removeAll ep => exact key _ [] [] (by simp [step]) (by simp [step])
+  | setFiltering b => exact key _ [] [] (by simp [step]) (by simp [step])
+  | addListener => exact key _ [] [] (by simp [step]) (by simp [step])
+  | removeListener id => exact key _ [] [] (by simp [step]) (by simp [step])
+  | drop i => exact key _ _ _ rfl rfl
+
+end Flute.MultiRecv
